@@ -38,6 +38,7 @@ func (c19) Classes() []sim.Class {
 		{Name: "tree", Engine: "interpreter", Quick: 4000, Thorough: 150000},
 		{Name: "tree", Engine: "compiler", Quick: 500, Thorough: 20000},
 		{Name: "tree-sock", Engine: "interpreter", Quick: 1000, Thorough: 40000},
+		{Name: "concurrent-derivations", Engine: "interpreter", Quick: 1500, Thorough: 60000, Instrumented: true},
 	}
 }
 
@@ -49,7 +50,7 @@ func (c19) Describe() sim.Description {
 			"Non-trivial: some node has >= 2 children derived with the same kind of method, or a key/path override happened; distinct = distinct derivation shapes (parent index, method) sequences",
 		RealCode:    []string{"config.go, fsconfig.go With... methods and clone", "runtime.go InstantiateModule", "internal/sys context construction", "WASI args/environ/prestat/clock/random as the observation channel"},
 		Stubs:       []string{"none"},
-		Assumptions: []string{"clients interleave at call granularity (there is no yield point inside a With... call), which equals sequential orders"},
+		Assumptions: []string{"classes tree / tree-sock: clients interleave at call granularity, which equals sequential orders; class concurrent-derivations (instrumented copy: statement-level yields in config.go and fsconfig.go, switched on for this class only): 2-3 baton-scheduled tasks derive from the same shared values at the same time, interleaved statement by statement; a data race that needs two accesses inside ONE statement to overlap is out of reach"},
 		FaultKinds:  []string{"none (the adversary is the derivation order and argument overlap)"},
 	}
 }
@@ -269,6 +270,9 @@ var (
 )
 
 func (c19) Run(t *tape.Tape, cfg sim.Config) (res sim.Result) {
+	if cfg.Class == "concurrent-derivations" {
+		return runConcurrentDerivations(t, cfg)
+	}
 	ctx := context.Background()
 	rt := wasifs.RuntimeFor(cfg.Engine)
 	var stdouts []*bytes.Buffer
